@@ -37,6 +37,9 @@ pub fn profile(name: &str) -> Profile {
         "own" => p("own", vec![("push", 8), ("pushi", 9), ("pushsc", 4), ("pushsci", 7), ("popm", 9), ("clone", 4), ("clones", 4), ("peek", 2), ("peeks", 2), ("gw", 2), ("se", 3),
             ("poke", 4), ("adv", 6), ("avail", 3), ("reset", 2), ("drop", 2), ("nimi", 1), ("sa", 1)], true, 15, false),
         "construct" => p("construct", with(FIFO, &[("drop", 10), ("resplit", 30), ("reset", 2)]), false, 10, true),
+        "async" => p("async", vec![("push", 12), ("pushs", 7), ("pushsc", 3), ("nsm", 2), ("nim", 1), ("nimi", 1), ("adv", 8), ("avail", 3), ("gw", 3), ("se", 4), ("sa", 2), ("sm", 2),
+            ("peek", 3), ("peeks", 4), ("peeka", 2), ("pop", 8), ("popm", 1), ("copy", 4), ("clone", 3), ("copys", 5), ("clones", 3), ("reset", 2), ("drop", 1)], false, 35, false),
+        "asyncown" => p("asyncown", vec![("push", 14), ("pushsc", 5), ("adv", 6), ("avail", 3), ("gw", 2), ("se", 3), ("peek", 2), ("peeks", 2), ("popm", 9), ("clone", 4), ("clones", 4), ("reset", 1), ("drop", 1)], true, 35, false),
         "all" => p("all", with(FIFO, &[("reset", 4), ("detach", 3), ("attach", 2), ("seti", 2), ("back", 3), ("sync", 2), ("drop", 1), ("resplit", 10)]), false, 15, true),
         _ => panic!("unknown profile {name}"),
     }
